@@ -177,6 +177,9 @@ func (sc *c15Scenario) Nontrivial(res *simrt.Result) bool {
 
 func (sc *c15Scenario) Run(s *simrt.Sim) {
 	sc.h = &Hist{S: s}
+	// the library's default instances (default Handler/Actor and whatever else the package creates when it is loaded) are
+	// re-created inside every simulation: code that falls back on them runs on simulated threads (see C12, C16)
+	fpgo.SimReinit()
 	switch sc.Kind {
 	case "queue":
 		sc.runQueue(s)
